@@ -21,7 +21,7 @@ from . import extract
 from .gf import GFLin, GFNonZero, GFLog
 from .sym import (SInt, SBool, Unsupported, ConcretizeError, fresh_int, fresh_bool, fresh_name,
                   s_and, s_or, s_not, s_ite, s_min, s_max, s_implies, zb, _z, mk_bool, is_sym,
-                  range_constraints, same_value, _counter, reset_atoms, QForall)
+                  range_constraints, same_value, _counter, reset_atoms, QForall, SQuant)
 from .values import (CUR, VBytearray, VBytes, SSeq, SIter, SBits, SRepeat, Obj, TupObj,
                      CountedList, OpaqueSeq, OpaqueElem, OpaqueIter)
 
@@ -243,6 +243,9 @@ class Interp:
         self.stats = dict(solver_checks=0, solver_s=0.0)
         self.qassumptions = []
         self.index_terms = []
+        self.quant_log = []
+        self.quant_witness = {}
+        self.loop_k = {}
         self.gf_guard = None
         self.gf_tables = None
         self.gf_used_shifts = set()
@@ -259,6 +262,9 @@ class Interp:
 
     def add_index_term(self, t):
         """register an index term: every assumed QForall is instantiated at it"""
+        for u in self.index_terms:
+            if same_value(u, t) is True:
+                return
         self.index_terms.append(t)
         for q in self.qassumptions:
             self.assume(q.body(t))
@@ -331,9 +337,79 @@ class Interp:
         r, _, _ = self._check(e, self.feas_timeout_ms)
         return r != z3.unsat
 
+    def _snapshot(self):
+        return (len(self.pc), len(self.qassumptions), len(self.index_terms))
+
+    def _restore(self, snap):
+        del self.pc[snap[0]:]
+        del self.qassumptions[snap[1]:]
+        del self.index_terms[snap[2]:]
+
+    def choose(self, options):
+        """n-way decision: options are callables that add their constraints to the path
+        condition; returns the index of the option taken on this path (DFS over all
+        feasible options by re-execution)."""
+        pos = len(self.trace)
+        self.decides += 1
+        if pos < len(self.prefix):
+            choice, rem = self.prefix[pos]
+        else:
+            alts = []
+            for i, opt in enumerate(options):
+                snap = self._snapshot()
+                self.solver.push()
+                ctr = _counter[0]
+                try:
+                    opt()
+                    self.solver.set('timeout', self.feas_timeout_ms)
+                    t0 = time.time()
+                    r = self.solver.check()
+                    self.stats['solver_checks'] += 1
+                    self.stats['solver_s'] += time.time() - t0
+                    ok = r != z3.unsat
+                except Infeasible:
+                    ok = False
+                self.solver.pop()
+                self._restore(snap)
+                _counter[0] = ctr
+                if ok:
+                    alts.append(i)
+            if not alts:
+                raise Infeasible()
+            choice, rem = alts[0], alts[1:]
+        self.trace.append((choice, rem))
+        options[choice]()
+        return choice
+
+    def decide_quant(self, q):
+        """truth of an SQuant (see sym.SQuant)"""
+        n = q.n
+        res = {}
+
+        def holds():
+            if q.nonempty:
+                self.assume(n > 0)
+            self.assume(QForall(lambda k: s_implies(s_and(k >= 0, k < n), q.body(k)), q.name))
+
+        def fails():
+            sk = self.fresh_int('w_' + q.name, 0, None)
+            self.assume(sk < n)
+            self.assume(s_not(q.body(sk)))
+            self.add_index_term(sk)
+            self.quant_witness[q.name] = sk
+
+        def empty():
+            self.assume(n <= 0)
+        opts = [holds, fails] + ([empty] if q.nonempty else [])
+        c = self.choose(opts)
+        self.quant_log.append((q.name, ('holds', 'fails', 'empty')[c]))
+        return c == 0
+
     def decide(self, cond):
         if isinstance(cond, bool):
             return cond
+        if isinstance(cond, SQuant):
+            return self.decide_quant(cond)
         if isinstance(cond, SInt):
             cond = (cond != 0)
             if isinstance(cond, bool):
@@ -357,7 +433,7 @@ class Interp:
         return choice
 
     def truth(self, v):
-        if isinstance(v, (SBool, SInt)):
+        if isinstance(v, (SBool, SInt, SQuant)):
             return self.decide(v)
         if isinstance(v, (bool, int, str, bytes, type(None), tuple, list, dict, float)):
             return bool(v)
@@ -520,6 +596,20 @@ class Interp:
                 out[name] = self._eval_model(model, v)
             except Exception as ex:  # pragma: no cover
                 out[name] = 'unevaluable: %r' % (ex,)
+            if isinstance(v, SSeq):
+                # cells around every instantiation term (the positions the proof looked at)
+                cells = {}
+                try:
+                    for t in self.index_terms:
+                        p = self._eval_model(model, t) if is_sym(t) else t
+                        if not isinstance(p, int):
+                            continue
+                        for q in (p, p + 1, 2 * p, 2 * p + 1):
+                            if 0 <= q and len(cells) < 64:
+                                cells[q] = model.eval(z3.Select(v.arr, z3.IntVal(q)), model_completion=True).as_long()
+                    out[name + '_cells'] = {str(k): cells[k] for k in sorted(cells)}
+                except Exception:  # pragma: no cover
+                    pass
         return out
 
     def _eval_model(self, model, v):
@@ -560,6 +650,9 @@ class Interp:
             self.inputs = {}
             self.qassumptions = []
             self.index_terms = []
+            self.quant_log = []
+            self.quant_witness = {}
+            self.loop_k = {}
             _counter[0] = 0
             reset_atoms()
             CUR[0] = self
@@ -1126,8 +1219,11 @@ class Interp:
         self._havoc_locals(s.body, fr, spec, extra=extract.assigned_names([ast.Assign(targets=[s.target], value=None)]) if False else ())
         # loop target is rebound at each iteration
         ctx = LoopCtx(self, fr, k, entry, itv)
+        self.loop_k[key] = k
+        self.inputs['loop_counter_%s_%d' % (key[0].split(':')[1], key[1])] = k
         if spec.havoc:
             spec.havoc(ctx)
+        self.add_index_term(k)
         for nme, c in spec.inv(ctx):
             self.assume(c if (is_sym(c) or isinstance(c, QForall)) else bool(c))
         if self.decide(k < N):
@@ -1455,6 +1551,8 @@ class Interp:
     def e_UnaryOp(self, n, fr):
         v = self.eval(n.operand, fr)
         if isinstance(n.op, ast.Not):
+            if isinstance(v, SQuant):
+                return not self.decide(v)
             if isinstance(v, SBool):
                 return s_not(v)
             if isinstance(v, SInt):
@@ -1551,6 +1649,12 @@ class Interp:
     def contains(self, cont, x):
         if isinstance(cont, TupObj):
             cont = cont.items
+        if isinstance(x, SInt) and isinstance(cont, range):
+            if cont.step > 0:
+                r = s_and(x >= cont.start, x < cont.stop)
+                if cont.step != 1:
+                    r = s_and(r, (x - cont.start) % cont.step == 0)
+                return r
         if is_sym(x):
             if isinstance(cont, (tuple, list, range, set, frozenset)) or hasattr(cont, 'keys') or \
                     isinstance(cont, type({}.values())):
@@ -2219,6 +2323,43 @@ def _int_of_bytes(I, x, base):
     return acc
 
 
+def charclass_of_pattern(pat):
+    """{'set': byte values, 'min': 0|1} for a compiled pattern of the shape ^[set]+\\Z or ^[set]*\\Z"""
+    import re
+    try:
+        import re._parser as sp
+        import re._constants as sc
+    except ImportError:       # Python < 3.11
+        import sre_parse as sp
+        import sre_constants as sc
+    if pat.flags & ~(re.UNICODE | re.ASCII):
+        raise Unsupported('regular expression flags %r' % pat.flags)
+    items = list(sp.parse(pat.pattern, pat.flags))
+    if len(items) != 3 or items[0] != (sc.AT, sc.AT_BEGINNING) or items[2] != (sc.AT, sc.AT_END_STRING):
+        raise Unsupported('regular expression shape %r' % (pat.pattern,))
+    op, arg = items[1]
+    if op not in (sc.MAX_REPEAT,):
+        raise Unsupported('regular expression shape %r' % (pat.pattern,))
+    lo, hi, sub = arg
+    if hi != sc.MAXREPEAT or lo not in (0, 1) or len(sub) != 1:
+        raise Unsupported('regular expression repeat %r' % (pat.pattern,))
+    sop, sarg = sub[0]
+    chars = set()
+    if sop == sc.LITERAL:
+        chars.add(sarg)
+    elif sop == sc.IN:
+        for kind, val in sarg:
+            if kind == sc.LITERAL:
+                chars.add(val)
+            elif kind == sc.RANGE:
+                chars.update(range(val[0], val[1] + 1))
+            else:
+                raise Unsupported('regular expression class item %r' % (kind,))
+    else:
+        raise Unsupported('regular expression shape %r' % (pat.pattern,))
+    return dict(set=chars, min=lo)
+
+
 def _build_method_models(I):
     MM = {}
 
@@ -2299,6 +2440,26 @@ def _build_method_models(I):
     def sseq_isdigit(self):
         return self.isdigit()
     MM[(SSeq, 'isdigit')] = sseq_isdigit
+
+    import re as _re
+
+    def pattern_match(self, data, *a):
+        """re.Pattern.match on symbolic bytes: only the shape ^[set]+\\Z / ^[set]*\\Z is
+        given semantics, read mechanically from the compiled pattern object"""
+        if not isinstance(data, (SSeq, VBytearray)):
+            return self.match(data, *a)
+        if a:
+            raise Unsupported('Pattern.match with pos')
+        cls = charclass_of_pattern(self)
+        if isinstance(data, VBytearray):
+            data_len = len(data.items)
+            at = lambda k: data.items[k] if isinstance(k, int) else I.select_concrete_list(data.items, k)
+            if data_len < cls['min']:
+                return None
+            return s_and(*[s_or(*[x == c for c in sorted(cls['set'])]) for x in data.items]) or None
+        body = lambda k: s_or(*[data.raw_abs(data.off + k) == c for c in sorted(cls['set'])])
+        return SQuant(data.length, body, nonempty=cls['min'] >= 1, name='regex')
+    MM[(_re.Pattern, 'match')] = pattern_match
 
     def sbits_extend(self, it):
         I.note_mutation(self)
